@@ -33,7 +33,7 @@ impl Palette {
         let nb_deltas = self.nb_deltas as i32;
         let nb_colors = self.nb_colours as i32;
 
-        let is_simple = {
+        let is_simple = nb_deltas == 0 && {
             let index_grid = targets[0].as_shared();
             let height = index_grid.height();
             (0..height).all(|y| {
